@@ -1,0 +1,54 @@
+//go:build verif
+
+package group
+
+// VerifGroups returns group name -> number of member listeners.
+func (tgc *TCPGroupCtl) VerifGroups() map[string]int {
+	tgc.mu.Lock()
+	gs := make(map[string]*TCPGroup, len(tgc.groups))
+	for n, g := range tgc.groups {
+		gs[n] = g
+	}
+	tgc.mu.Unlock()
+	out := make(map[string]int, len(gs))
+	for n, g := range gs {
+		g.mu.Lock()
+		out[n] = len(g.lns)
+		g.mu.Unlock()
+	}
+	return out
+}
+
+// VerifGroups returns group name -> number of member listeners.
+func (tmgc *TCPMuxGroupCtl) VerifGroups() map[string]int {
+	tmgc.mu.Lock()
+	gs := make(map[string]*TCPMuxGroup, len(tmgc.groups))
+	for n, g := range tmgc.groups {
+		gs[n] = g
+	}
+	tmgc.mu.Unlock()
+	out := make(map[string]int, len(gs))
+	for n, g := range gs {
+		g.mu.Lock()
+		out[n] = len(g.lns)
+		g.mu.Unlock()
+	}
+	return out
+}
+
+// VerifGroups returns group name -> member proxy names.
+func (ctl *HTTPGroupController) VerifGroups() map[string][]string {
+	ctl.mu.Lock()
+	gs := make(map[string]*HTTPGroup, len(ctl.groups))
+	for n, g := range ctl.groups {
+		gs[n] = g
+	}
+	ctl.mu.Unlock()
+	out := make(map[string][]string, len(gs))
+	for n, g := range gs {
+		g.mu.RLock()
+		out[n] = append([]string(nil), g.pxyNames...)
+		g.mu.RUnlock()
+	}
+	return out
+}
